@@ -160,8 +160,11 @@ func (c *glCtx) expr(e ast.Expr) string {
 			}
 			c.fail(e, "qualified identifier %s", x.Sel.Name)
 		}
+		if sel.Kind() == types.MethodVal {
+			return c.methodValue(x, sel)
+		}
 		if sel.Kind() != types.FieldVal {
-			c.fail(e, "method value")
+			c.fail(e, "method expression")
 		}
 		return "(" + c.expr(x.X) + "." + strings.Join(c.fieldPath(x, sel), ".") + ")"
 	case *ast.IndexExpr:
@@ -1035,5 +1038,70 @@ func (c *glCtx) funcLit(x *ast.FuncLit) string {
 	c.emit("let %s : %s := fun %s => do", name, c.lt(sig, x), strings.Join(ps, " "))
 	c.lines = append(c.lines, c2.lines...)
 	c.tmp = c2.tmp
+	return name
+}
+
+// methodValue: `recv.method` used as a function value (e.g. passed as a getter) becomes a let-bound lambda in the monad
+// that calls the translated method on the receiver as it is NOW (Go binds the receiver when the method value is taken;
+// the subset has no later writes through it: a method that writes its receiver is an EXTRACT-FAIL here).
+func (c *glCtx) methodValue(x *ast.SelectorExpr, sel *types.Selection) string {
+	fn, ok := sel.Obj().(*types.Func)
+	if !ok {
+		c.fail(x, "method value")
+	}
+	callee := c.g.funcs[fn.Origin()]
+	if callee == nil {
+		c.fail(x, "method value of %s (not in the translated set)", qualName(fn))
+	}
+	if callee.mutRecv || len(callee.mutParams) > 0 {
+		for _, m := range callee.mutParams {
+			if m {
+				c.fail(x, "method value of a method that writes through its arguments")
+			}
+		}
+		if callee.mutRecv {
+			c.fail(x, "method value of a method that writes its receiver")
+		}
+	}
+	if len(sel.Index()) > 1 {
+		c.fail(x, "method value through an embedded field")
+	}
+	sig := fn.Type().(*types.Signature)
+	recv := c.expr(x.X)
+	parts := []string{callee.spec.lean}
+	var exts []string
+	for e := range callee.externs {
+		exts = append(exts, e)
+	}
+	sort.Strings(exts)
+	for _, e := range exts {
+		parts = append(parts, glExterns[e].param)
+	}
+	if callee.needsFuel {
+		parts = append(parts, c.fuelName)
+	}
+	parts = append(parts, recv)
+	var ps []string
+	for i := 0; i < sig.Params().Len(); i++ {
+		a := fmt.Sprintf("a%d", i+1)
+		ps = append(ps, fmt.Sprintf("(%s : %s)", a, c.lt(sig.Params().At(i).Type(), x)))
+		parts = append(parts, a)
+	}
+	// the function type of the value: errors travel through the monad
+	ft := types.NewSignatureType(nil, nil, nil, sig.Params(), sig.Results(), sig.Variadic())
+	name := c.fresh("fn")
+	c.emit("let %s : %s := fun %s => do", name, c.lt(ft, x), strings.Join(ps, " "))
+	nres := resultCount(sig)
+	sigHasErr := sig.Results().Len() > 0 && isErrorType(sig.Results().At(sig.Results().Len()-1).Type())
+	if glErrData[callee.spec.lean] && sigHasErr {
+		c.emit("    let t ← %s", strings.Join(parts, " "))
+		all := tupleProj("t", nres+1)
+		c.emit("    if (%s != Go.Error.nil) then", all[nres])
+		c.emit("      throw (Err.err (Go.Error.tag %s))", all[nres])
+		c.emit("    return %s", tupleTerm(all[:nres]))
+	} else {
+		c.emit("    let t ← %s", strings.Join(parts, " "))
+		c.emit("    return t")
+	}
 	return name
 }
